@@ -112,7 +112,7 @@ Qed.
 (* a factor offered for table t mentions columns of t only (so a back-end can evaluate it on t's rows alone) *)
 Lemma single_table_only p t : single_table p = Some t -> forall x, In x (tables_in p) -> x = t.
 Proof.
-  unfold single_table. intros H x Hx. apply (nodup_In Nat.eq_dec) in Hx.
+  unfold single_table. intros H x Hx. destruct (elem_free p); [|discriminate H]. apply (nodup_In Nat.eq_dec) in Hx.
   destruct (nodup Nat.eq_dec (tables_in p)) as [|y [|z l]]; try discriminate. injection H as <-. destruct Hx as [<-|[]]. reflexivity.
 Qed.
 
@@ -218,3 +218,38 @@ Lemma preserved_row_rejected :
   preserved 0 leftjoin = true
   /\ admits (offered_factors 0 leftjoin None) 0 [(0, VInt 1); (1, VInt 0)] = false.
 Proof. split; vm_compute; reflexivity. Qed.
+
+(* ---- with Predicate.Factors.primitive every factor is reference-free by construction ----------------------- *)
+Lemma single_table_elem_free p t : single_table p = Some t -> elem_free p = true.
+Proof. unfold single_table. destruct (elem_free p); [reflexivity|discriminate]. Qed.
+
+Lemma factors_elem_free_always : forall p t f, fac_get t (factors p) = Some f -> elem_free f = true.
+Proof.
+  induction p as [t0 c k|r c k|v|g IH n|o a IHa b IHb|a IH|fn a IH]; intros t f Hf; simpl in Hf; try discriminate.
+  - destruct o; try (destruct (single_table (FBin _ a b)) as [t1|] eqn:S; simpl in Hf;
+                     [destruct (Nat.eqb t t1); [injection Hf as <-; exact (single_table_elem_free _ _ S)|discriminate]|discriminate]).
+    + rewrite fac_get_merge_and in Hf.
+      destruct (fac_get t (factors a)) as [fa|] eqn:Ea, (fac_get t (factors b)) as [fb|] eqn:Eb; try discriminate; injection Hf as <-.
+      * destruct (feature_eqb fa fb); [eapply IHa; eauto|]. cbn [elem_free]. apply andb_true_iff. split; [eapply IHa|eapply IHb]; eauto.
+      * eapply IHa; eauto.
+      * eapply IHb; eauto.
+    + rewrite fac_get_merge_or in Hf.
+      destruct (fac_get t (factors a)) as [fa|] eqn:Ea, (fac_get t (factors b)) as [fb|] eqn:Eb; try discriminate; injection Hf as <-.
+      destruct (feature_eqb fa fb); [eapply IHa; eauto|]. cbn [elem_free]. apply andb_true_iff. split; [eapply IHa|eapply IHb]; eauto.
+  - destruct (single_table (FNot a)) as [t1|] eqn:S; simpl in Hf; [|discriminate].
+    destruct (Nat.eqb t t1); [injection Hf as <-; exact (single_table_elem_free _ _ S)|discriminate].
+Qed.
+
+Theorem offered_filter_safe_refs src pre t e :
+  (forall p, In p (filter_clauses src pre) -> holds e p = true) ->
+  offered_factors t src pre <> [] -> admits (offered_factors t src pre) t (env_get (false, t) e) = true.
+Proof.
+  intros Hc Hne. unfold admits. destruct (offered_factors t src pre) as [|f fs] eqn:E; [congruence|].
+  cbn [existsb]. assert (Hf : In f (offered_factors t src pre)) by (rewrite E; left; reflexivity).
+  unfold offered_factors in Hf. apply in_flat_map in Hf. destruct Hf as [p [Hp Hf]].
+  destruct (fac_get t (factors p)) as [g|] eqn:G; [|destruct Hf]. destruct Hf as [<-|[]].
+  unfold holds. rewrite <- feval_local.
+  - fold (holds e g). rewrite (factor_sound p e t g G (Hc p Hp)). reflexivity.
+  - exact (factors_elem_free_always p t g G).
+  - exact (factor_single_table p t g G).
+Qed.
